@@ -54,6 +54,14 @@ def stepClient (c : Client) (toks : List String) : Option (Client × String) :=
     | none =>
       let r2 := r.1.step (.deliver (hex! resp))
       some (r2.1, s!"ret=ok {showOuts (r.2.2 ++ r2.2.2)} do=after-callback")
+  -- `Do` whose response arrives after Do has started waiting: the same two events, in the same order
+  | ["CL", "dolate", id, raw, resp, h] =>
+    let r := c.step (.start (hex! id) (hex! raw) (some (nat! h)))
+    match r.2.1 with
+    | some e => some (r.1, s!"ret={showCErr (some e)} {showOuts r.2.2} do=none")
+    | none =>
+      let r2 := r.1.step (.deliver (hex! resp))
+      some (r2.1, s!"ret=ok {showOuts (r.2.2 ++ r2.2.2)} do=after-callback")
   -- several goroutines race Close with Start / Indicate / SetRTO: exactly one Close takes effect
   | ["CL", "conc", _, _] =>
     let r := c.step .close
@@ -92,6 +100,16 @@ def stepClient2 (k : Client2) (toks : List String) : Option (Client2 × String) 
     let r := k.step (.startBlocked (hex! id) (hex! raw) (nat! h))
     let pending := r.1.susp.length > k.susp.length
     some (r.1, s!"ret={if pending then "pending" else showCErr r.2.1} {showOuts r.2.2} blocked={r.1.susp.length}")
+  -- `Do` on the F12 schedule: the response is handled while Start is inside its first Write, which then fails; Do
+  -- returns Start's error (and must not leave anything behind for the next Do)
+  | ["CL", "dofail", id, raw, resp, h] =>
+    let r := k.step (.startBlocked (hex! id) (hex! raw) (nat! h))
+    if r.1.susp.length > k.susp.length then
+      let r2 := r.1.step (.l1 (.deliver (hex! resp)))
+      let r3 := r2.1.step (.release false)
+      let k' : Client2 := if r3.1.susp.isEmpty then { r3.1 with blockIds := [], blockAgentIds := [] } else r3.1
+      some (k', s!"ret={showCErr r3.2.1} {showOuts (r.2.2 ++ r2.2.2 ++ r3.2.2)} do=failed")
+    else some (r.1, s!"ret={showCErr r.2.1} {showOuts r.2.2} do=none")
   | "CL" :: "new" :: _ => (stepClient k.c toks).map (fun r => ({ c := r.1 }, r.2))
   | _ => (stepClient k.c toks).map (fun r => ({ k with c := r.1 }, r.2))
 
